@@ -28,8 +28,9 @@ Definition snapshot_run (s : nstate) : outcome nstate :=
   | Some rq =>
       match sr_done rq with
       | SnapPending =>
-          Done (set_snap s (sr_index rq) (sr_term rq) (sr_config rq)
-                  <| st_snapreq := Some (mkSnapReqSt (sr_tid rq) (sr_index rq) (sr_term rq) (sr_config rq) (SnapOk (sr_index rq))) |>)
+          (* sink.done publishes only a snapshot newer than the one already there *)
+          let s1 := if st_snapidx s <? sr_index rq then set_snap s (sr_index rq) (sr_term rq) (sr_config rq) else s in
+          Done (s1 <| st_snapreq := Some (mkSnapReqSt (sr_tid rq) (sr_index rq) (sr_term rq) (sr_config rq) (SnapOk (sr_index rq))) |>)
       | _ => Done s
       end
   | None => Err EBug
